@@ -80,7 +80,8 @@ int KSI_VerificationContext_init(KSI_VerificationContext *context, KSI_CTX *ctx)
 void KSI_VerificationContext_clean(KSI_VerificationContext *context) { (void)context; }
 int KSI_AggregationHashChain_compare(const KSI_AggregationHashChain **l, const KSI_AggregationHashChain **r) { (void)l; (void)r; return 0; }
 /* the aggregation chain list is not the subject: one chain, sorting has a symbolic outcome */
-static int c19_sort(void *lst) { (void)lst; return ST(sort_status); }
+static unsigned n_sort; static void *sorted_list;
+static int c19_sort(void *lst) { n_sort++; sorted_list = lst; return ST(sort_status); }
 #undef KSI_AggregationHashChainList_sort
 #define KSI_AggregationHashChainList_sort(lst, cmp) c19_sort(lst)
 #undef KSI_AggregationHashChainList_length
@@ -107,6 +108,8 @@ void harness(void) {
 	CHECK(clone_released == (n_clone && clone_obj.ref ? 1u : 0u) && result_released <= 1 && (result_obj.ref == 0 || result_released == 1), "C19.H7 the verification clone and result are released exactly once");
 	if (res == KSI_OK) {
 		CHECK(out == &S && B.sig == NULL, "C19.H7 on success the signature moves to the caller and the builder no longer owns it");
+		/* (C01: every rule of the internal policy takes element 0 of the chain list for the chain with the longest index) */
+		CHECK(n_sort >= 1 && sorted_list == (void *)&chain_list_dummy, "C01/C19.H7 every successful close has put the signature's aggregation chains in order (parsed and scratch-built signatures alike)");
 #if PRE_TLV
 		CHECK(S.baseTlv == &pre_tlv && n_tlv_new == 0 && n_construct == 0, "C19.H7 an element installed before close is kept as it is");
 #else
